@@ -85,6 +85,7 @@ func VerifPrintRoundTrip() {
 	zzSchedule = 0
 	text := zzOpens
 	f4 := false
+	perf := -1
 	switch tmpl {
 	case 0: // amounts (negative, zero, trailing zeros, many digits), symbolic description, zero booking + assertion of 0
 		a1 := zzAmounts[v.Choice("a1", len(zzAmounts))]
@@ -94,7 +95,8 @@ func VerifPrintRoundTrip() {
 		text += "2020-01-06 price USD 0.95 CHF\n2020-01-06 price USD 0.9 CHF\n2020-01-06 price EUR 1.1 CHF\n\n" // same pair twice on one day: the later one counts
 		text += "2020-01-07 balance Assets:Bär 5 USD\n2020-01-07 balance Assets:Bär 0 EUR\n"
 	case 1: // annotations and accruals
-		switch v.Choice("perf", 3) {
+		perf = v.Choice("perf", 3)
+		switch perf {
 		case 0:
 			text += "@performance(USD,CHF)\n"
 		case 1:
@@ -129,6 +131,15 @@ func VerifPrintRoundTrip() {
 		return
 	}
 	v.Assert(t2 == t1, "printing-again-reproduces-the-output")
+	// annotations are part of the journal: a @performance annotation (also an empty one) survives printing
+	switch perf {
+	case 0:
+		v.Assert(strings.Contains(t1, "@performance(USD,CHF)\n"), "performance-annotation-is-printed")
+	case 1:
+		v.Assert(strings.Contains(t1, "@performance()\n"), "performance-annotation-is-printed")
+	case 2:
+		v.Assert(!strings.Contains(t1, "@performance("), "no-annotation-invented")
+	}
 	// reports from the original and from the printed journal agree
 	for _, val := range []int{0, 1} {
 		var r1, r2 balanceRunner
